@@ -233,6 +233,8 @@ pub fn run(ctx: &Ctx) -> i32 {
                 }
             }
         }
+        let grace_ms = crate::faults::measured_read_card_grace_ms(&schema);
+        r.note("measured_read_card_grace_ms", &format!("{grace_ms:06}"));
         // a slow presentation: intermediate statuses trickle in, each one (and finally the card) just inside the time the
         // client waits for a single packet (read_card_timeout + 2 s), the whole exchange far beyond it
         for (k, rc) in [0u8, 1, 15, 60].iter().enumerate() {
@@ -245,7 +247,11 @@ pub fn run(ctx: &Ctx) -> i32 {
                     sc.cfg.read_card_timeout = *rc;
                     sc.calls = vec![Call::ReadCard];
                     sc.plan.push(2, Cmd::ReadCard, ExPlan { pre: intermediates(n_inter), card: Some(CardData { uid: Some("04a1b2c3d4e5f6".into()), ..CardData::default() }), ..ExPlan::default() });
-                    let gap = if gap_ms_short { *rc as u32 } else { *rc as u32 + 1 };
+                    // half of the grace the client is observed to give beyond read_card_timeout (1 s of the 2 s)
+                    let gap = if gap_ms_short { *rc as u32 } else { *rc as u32 + (grace_ms / 2000) as u32 };
+                    if (gap.max(1) as u64) * 1000 >= *rc as u64 * 1000 + grace_ms {
+                        continue; // would not be inside the per-packet wait
+                    }
                     for p in 1..=n_inter + 1 {
                         sc.plan.faults.push(FaultSpec { call: 2, at: At::Tx(p), kind: FaultKind::Pause(gap.max(1)) });
                     }
@@ -256,7 +262,7 @@ pub fn run(ctx: &Ctx) -> i32 {
                     if !matches!(&got, Some(CallResult::Ok(OkVal::Membership(m))) if m == "04A1B2C3D4E5F6") {
                         r.violation(
                             "C18: a card presented after slowly arriving intermediate statuses is not reported",
-                            &format!("read_card_timeout {rc}: {n_inter} intermediate statuses and the card, each {} s after the previous packet (the client waits {} s for a packet): {} ({} ReadCard requests)", gap.max(1), *rc as u32 + 2, got.map(|g| g.short()).unwrap_or_default(), tr.requests.iter().filter(|q| q.cmd == Cmd::ReadCard).count()),
+                            &format!("read_card_timeout {rc}: {n_inter} intermediate statuses and the card, each {} s after the previous packet (the client waits {} ms for a packet): {} ({} ReadCard requests)", gap.max(1), *rc as u64 * 1000 + grace_ms, got.map(|g| g.short()).unwrap_or_default(), tr.requests.iter().filter(|q| q.cmd == Cmd::ReadCard).count()),
                             case_json(&sc, &tr),
                         );
                     }
@@ -269,7 +275,7 @@ pub fn run(ctx: &Ctx) -> i32 {
             if k % threads != shard % threads {
                 continue;
             }
-            for extra_ms in [100u64, 900, 1500] {
+            for extra_ms in [grace_ms / 20, grace_ms * 9 / 20, grace_ms * 3 / 4] {
                 for late_card in [false, true] {
                     let mut sc = Scenario::default();
                     sc.cfg.read_card_timeout = *rc;
